@@ -17,7 +17,7 @@ pub struct C18 {
     pub corpus: std::sync::Arc<crate::corpus::Corpus>,
 }
 
-static PAIRS: crate::engine::PairTable = crate::engine::PairTable::new(&["owned", "borrowed", "sp_new", "sp_curve", "sp_curve_bufs", "sp_borrowed", "sp_duration", "sp_end_time", "sp_push", "sp_pop", "sp_set", "sp_settype", "sp_len", "sp_clear", "sp_clone", "sp_clone_from"]);
+static PAIRS: crate::engine::PairTable = crate::engine::PairTable::new(&["owned", "borrowed", "sp_new", "sp_curve", "sp_curve_bufs", "sp_borrowed", "sp_duration", "sp_end_time", "sp_push", "sp_pop", "sp_set", "sp_settype", "sp_len", "sp_clear", "sp_clone", "sp_clone_from", "sp_swap", "sp_reverse"]);
 
 fn mode_of(i: i64) -> GameMode {
     match i.rem_euclid(4) {
@@ -184,7 +184,7 @@ fn gen_list(rng: &mut Rng) -> Vec<f64> {
     }
 }
 fn gen_len(rng: &mut Rng) -> f64 {
-    *rng.pick(&[f64::NAN, f64::NAN, 1.0, 50.0, 150.0, 1000.0, 1e6, 0.0, -5.0, 0.001, 333.3333, 0.25, 0.25000000000000006, 1e-20, 5e-324, 150.00000000000003, 50.00000000000001])
+    *rng.pick(&[f64::NAN, f64::NAN, 1.0, 50.0, 150.0, 1000.0, 1e6, 0.0, -5.0, 0.001, 333.3333, 0.25, 0.25000000000000006, 1e-20, 5e-324, 150.00000000000003, 50.00000000000001, f64::INFINITY, f64::NEG_INFINITY, -1e-17, 1e308])
 }
 
 const FIXED_LISTS: &[&[(i64, f64, f64)]] = &[
@@ -455,7 +455,15 @@ impl Scenario for C18 {
                 p.ops.push(match rng.below(4) {
                     0 => Op::new("sp_len", &[slot, gen_len(&mut rng)]),
                     1 => Op::new("sp_push", &[slot, -1.0, rng.range(0, 512) as f64, rng.range(0, 384) as f64]),
-                    2 => Op::new("sp_clone_from", &[slot, rng.below(4) as f64]),
+                    2 => {
+                        if rng.chance(1, 2) {
+                            Op::new("sp_clone_from", &[slot, rng.below(4) as f64])
+                        } else if rng.chance(1, 2) {
+                            Op::new("sp_swap", &[slot, rng.below(8) as f64, rng.below(8) as f64])
+                        } else {
+                            Op::new("sp_reverse", &[slot])
+                        }
+                    }
                     _ => Op::new("sp_set", &[slot, rng.below(6) as f64, rng.range(0, 512) as f64, rng.range(0, 384) as f64]),
                 });
                 p.ops.push(Op::new(read, &[slot, 1.0]));
@@ -590,7 +598,7 @@ impl Scenario for C18 {
                     }
                     prev_kind = "cached";
                 }
-                k @ ("sp_curve" | "sp_curve_bufs" | "sp_borrowed" | "sp_duration" | "sp_end_time" | "sp_push" | "sp_pop" | "sp_set" | "sp_settype" | "sp_len" | "sp_clear") => {
+                k @ ("sp_curve" | "sp_curve_bufs" | "sp_borrowed" | "sp_duration" | "sp_end_time" | "sp_push" | "sp_pop" | "sp_set" | "sp_settype" | "sp_len" | "sp_clear" | "sp_swap" | "sp_reverse") => {
                     let si = op.iarg(0).rem_euclid(4) as usize;
                     let Some(slot) = slots[si].as_mut() else { continue };
                     if !matches!(slot.obj.kind, HitObjectKind::Slider(_)) {
@@ -675,6 +683,19 @@ impl Scenario for C18 {
                                 slot.pts[j].path_type = ptype(op.iarg(2));
                             }
                         }
+                        "sp_swap" => {
+                            if slot.pts.len() >= 2 {
+                                st.inc("ops.mutate-points");
+                                let (a, b) = (op.iarg(1).rem_euclid(slot.pts.len() as i64) as usize, op.iarg(2).rem_euclid(slot.pts.len() as i64) as usize);
+                                slider_mut(&mut slot.obj).path.control_points_mut().swap(a, b);
+                                slot.pts.swap(a, b);
+                            }
+                        }
+                        "sp_reverse" => {
+                            st.inc("ops.mutate-points");
+                            slider_mut(&mut slot.obj).path.control_points_mut().reverse();
+                            slot.pts.reverse();
+                        }
                         "sp_len" => {
                             st.inc("ops.mutate-length");
                             *slider_mut(&mut slot.obj).path.expected_dist_mut() = len_of(op.arg(1));
@@ -685,7 +706,7 @@ impl Scenario for C18 {
                             slider_mut(&mut slot.obj).path.clear_curve();
                         }
                     }
-                    if matches!(k, "sp_push" | "sp_pop" | "sp_set" | "sp_settype" | "sp_len") && matches!(prev_kind, "cached") {
+                    if matches!(k, "sp_push" | "sp_pop" | "sp_set" | "sp_settype" | "sp_len" | "sp_swap" | "sp_reverse") && matches!(prev_kind, "cached") {
                         st.inc("probe.mutation-right-after-cache-fill");
                     }
                     if matches!(k, "sp_curve" | "sp_curve_bufs" | "sp_duration" | "sp_end_time") {
